@@ -8,20 +8,22 @@
 EXTENDS Naturals, Sequences, FiniteSets, TLC, Json
 
 CONSTANTS MaxLen, Adaptors, Cats,
+          Styles,      \* how the loop advances: "pre" (++it, what a range-based for does) or "post" (it++, a hand-written
+                       \* walk): both are the same step Incr
           Handoffs     \* how the range object reaches the loop: "direct" (for (x : adaptor(c))), or stored first and
                        \* then "copy"-constructed, "move"-constructed or "assign"-ed over another range of the same type.
                        \* A range has value semantics: none of this changes what the loop sees.
 
-VARIABLES adaptor, cat, src, write, handoff,   \* the loop: which adaptor, category, source values, whether the body writes
+VARIABLES adaptor, cat, src, write, handoff, style,   \* the loop: which adaptor, category, source values, whether the body writes
           pc, pos, visited, tempAlive
 
-vars == <<adaptor, cat, src, write, handoff, pc, pos, visited, tempAlive>>
+vars == <<adaptor, cat, src, write, handoff, style, pc, pos, visited, tempAlive>>
 
 Sources == { [i \in 1..n |-> 10 * i] : n \in 0..MaxLen }        \* element i has value 10*i
 Init ==
   /\ adaptor \in Adaptors /\ cat \in Cats /\ src \in Sources
   /\ write \in (IF cat = "lvalue" THEN BOOLEAN ELSE {FALSE})
-  /\ handoff \in Handoffs
+  /\ handoff \in Handoffs /\ style \in Styles
   /\ pc = "start" /\ pos = 0 /\ visited = <<>> /\ tempAlive = FALSE
 
 N == Len(src)
@@ -30,26 +32,26 @@ Elem(k) == IF adaptor = "reverse" THEN N + 1 - k ELSE k          \* which source
 
 Begin ==
   /\ pc = "start" /\ pc' = "test" /\ pos' = 1 /\ tempAlive' = Temporary
-  /\ UNCHANGED <<adaptor, cat, src, write, handoff, visited>>
+  /\ UNCHANGED <<adaptor, cat, src, write, handoff, style, visited>>
 
 Deref ==            \* the loop variable: (index, value) for enumerate, value for reverse
   /\ pc = "test" /\ pos <= N
   /\ (Temporary => tempAlive)                                   \* the temporary is still there
   /\ visited' = Append(visited, [idx |-> (IF adaptor = "enumerate" THEN pos - 1 ELSE 0), val |-> src[Elem(pos)]])
   /\ pc' = "body"
-  /\ UNCHANGED <<adaptor, cat, src, write, handoff, pos, tempAlive>>
+  /\ UNCHANGED <<adaptor, cat, src, write, handoff, style, pos, tempAlive>>
 
 Body ==             \* a write through the visited value lands in the source element (lvalue ranges)
   /\ pc = "body"
   /\ src' = IF write THEN [src EXCEPT ![Elem(pos)] = @ + 1] ELSE src
   /\ pc' = "incr"
-  /\ UNCHANGED <<adaptor, cat, write, handoff, pos, visited, tempAlive>>
+  /\ UNCHANGED <<adaptor, cat, write, handoff, style, pos, visited, tempAlive>>
 
 Incr == /\ pc = "incr" /\ pos' = pos + 1 /\ pc' = "test"
-        /\ UNCHANGED <<adaptor, cat, src, write, handoff, visited, tempAlive>>
+        /\ UNCHANGED <<adaptor, cat, src, write, handoff, style, visited, tempAlive>>
 
 LoopEnd == /\ pc = "test" /\ pos > N /\ pc' = "done" /\ tempAlive' = FALSE
-           /\ UNCHANGED <<adaptor, cat, src, write, handoff, pos, visited>>
+           /\ UNCHANGED <<adaptor, cat, src, write, handoff, style, pos, visited>>
 
 Next == Begin \/ Deref \/ Body \/ Incr \/ LoopEnd
 Spec == Init /\ [][Next]_vars /\ WF_vars(Next)
@@ -65,6 +67,6 @@ WritesLand == Done /\ write => \A i \in 1..N : src[i] = 10 * i + 1
 NoWritesElsewhere == Done /\ ~write => \A i \in 1..N : src[i] = 10 * i
 TempOutlivesLoop == pc \in {"test", "body", "incr"} /\ Temporary => tempAlive
 
-CaseRec == [adaptor |-> adaptor, cat |-> cat, n |-> N, write |-> write, handoff |-> handoff, visited |-> visited, after |-> src]
+CaseRec == [adaptor |-> adaptor, cat |-> cat, n |-> N, write |-> write, handoff |-> handoff, style |-> style, visited |-> visited, after |-> src]
 Emit == Done => PrintT("CASE " \o ToJson(CaseRec))
 =============================================================================
